@@ -830,6 +830,16 @@ example :
     wc.out = [.status stResync, .updates [⟨301, 1, utNew⟩], .status stInSync, .updates [⟨301, 4, utUpdated⟩]] ∧
     convSeq (some proc2) [] [⟨4, 4, false⟩] = [⟨301, 4, false⟩] := by decide
 
+/-- Everything vanished: a populated List + watch, the watch expires (410), the re-List returns zero items with a
+zero revision and the call is observed in its polling steady state: the vanished resources are deleted, the cache
+is InSync and polling. -/
+example :
+    let s := ((Sess.init none false).run
+      [.call [] [] ([⟨1, 5, false⟩, ⟨2, 6, false⟩], 7) [.errExpired], .call [.pollStop] [] ([], 9) []])
+    s.wc.res = [] ∧ s.wc.status = stInSync ∧ s.wc.listPolling = true ∧ s.wc.rev = 0 ∧
+    s.total = [.status stResync, .updates [⟨1, 5, utNew⟩], .updates [⟨2, 6, utNew⟩], .status stInSync,
+               .status stResync, .updates [⟨1, 0, utDeleted⟩, ⟨2, 0, utDeleted⟩], .status stInSync] := by decide
+
 /-- Two caches feeding one syncer: the batches are quiet, the hypothesis of `syncer_quiet_while_waiting` holds. -/
 example : BatchesQuiet (WS.new 2)
     [(0, [.status stResync, .updates [⟨1, 5, utNew⟩], .status stInSync]), (1, [.status stResync, .status stInSync])] := by
